@@ -272,8 +272,8 @@ func (s *JobSim) Verdict() Verdict {
 		case TFailedAllowed:
 			v.TaskStatus[n] = []string{"done"}
 		case TErrAllowed:
+			// failed (with a non-exit error) while marked allow_failure: does not fail the job
 			v.TaskStatus[n] = []string{"done"}
-			allOK = false
 		case TFailed:
 			anyFailed = true
 			allOK = false
